@@ -15,7 +15,7 @@ from .. import common, corpus
 
 def _chunk(args):
     probe, f, fam, lmax, lo, hi = args
-    rc, out, err = common.run([probe, "c12", f, fam, str(lmax), str(lo), str(hi)], timeout=3600)
+    rc, out, err = common.run([probe, "c12", f, fam, str(lmax), str(lo), str(hi)], timeout=7200)
     return (args, rc, out.decode(errors="replace"), err.decode(errors="replace")[-2000:])
 
 
@@ -59,7 +59,9 @@ def run(tier):
         sizes[f] = size
         body_bits = (size - 32) * 8
         for fam, n in (("bit", body_bits), ("burst", body_bits), ("trunc", size), ("tail", 256), ("magic", 64)):
-            nchunks = 1 if n < 4096 else (8 if fam != "burst" else 48)
+            # burst chunks are sized by work (offsets x 2^(Lmax-2) patterns): a chunk must stay far below its time limit
+            # on a loaded machine
+            nchunks = 1 if n < 4096 else (8 if fam != "burst" else max(48, n // (4000 if lmax <= 8 else 600)))
             step = (n + nchunks - 1) // nchunks
             for lo in range(0, n, step):
                 jobs.append((probe, f, fam, lmax, lo, min(n, lo + step)))
